@@ -248,7 +248,7 @@ def sigEntry (H : Bytes → Bytes) (s : State) (subject : Bytes) : Bool × List 
 
 /-- Only a vote on `id` changes the vote ledger entry `id`; only a signature on the subject changes its entry. -/
 theorem votes_sigs_frame (H : Bytes → Bytes) (s : State) (op : Op) (id : Bytes)
-    (hv : ∀ a, op ≠ .vote id a) (hd : ∀ sg r c cc, op ≠ .deposit sg r c id cc)
+    (hv : ∀ a, op ≠ .vote id a) (hd : ∀ sg r c cc k, op ≠ .deposit sg r c id cc k)
     (hf : ∀ sg a chain view fee, op = .fee sg a chain view fee →
       strBytes "updateFee" ++ u64le chain ++ u64le (feeRound s a chain view fee).fv ≠ id) :
     alGet (step H s op).votes id = alGet s.votes id := by
@@ -258,7 +258,7 @@ theorem votes_sigs_frame (H : Bytes → Bytes) (s : State) (op : Op) (id : Bytes
     cases op <;> plan_cases ho
     all_goals try rfl
     all_goals try (rename_i hcd; rw [commit_frame hcd]; done)
-    all_goals (simp only; rw [alGet_put_ne]; intro e; first | (subst e; exact hv _ rfl) | (subst e; exact hd _ _ _ _ rfl) | exact hf _ _ _ _ _ rfl e.symm)
+    all_goals (simp only; rw [alGet_put_ne]; intro e; first | (subst e; exact hv _ rfl) | (subst e; exact hd _ _ _ _ _ rfl) | exact hf _ _ _ _ _ rfl e.symm)
   · intro ap hap s1 s2 n _ hs1 hf
     cases op <;> plan_cases hap
     all_goals (dsimp only at hf)
